@@ -13,8 +13,9 @@ import GluonModel.Model.Flags
 
 namespace Gluon
 
-abbrev MsgId := Nat
-abbrev UID := Nat
+/- `MsgId`, `UID` are notations for `Nat` (not `abbrev`s: `omega` does not look through abbrevs). -/
+notation "MsgId" => Nat
+notation "UID" => Nat
 
 structure SMsg where
   id : MsgId
